@@ -506,6 +506,7 @@ func AttributionViols(n int, zero ...int) (viols []mc.Viol, cases int) {
 	b := w.Nodes[0].BFT
 	vs := w.ValSet()
 	view := &lib.View{NetworkId: NetworkID, ChainId: ChainID, Height: ChainHeight, RootHeight: 2, Round: 0, Phase: lib.Phase_PROPOSE_VOTE}
+	mkErr := ""
 	mk := func(salt int, signers []int) *lib.QuorumCertificate {
 		blk, res := MakeBlock(0, 2, 0, salt)
 		h, _ := new(lib.Block).BytesToBlockHash(blk)
@@ -517,12 +518,15 @@ func AttributionViols(n int, zero ...int) (viols []mc.Viol, cases int) {
 				panic(err)
 			}
 			if err := mkey.AddSigner(m.Signature.Signature, i); err != nil {
-				panic(err)
+				// the member list has a position the committee's multi-key does not have: bitmap positions no longer name members
+				mkErr = fmt.Sprintf("member %d of %d cannot be added as signer: %v", i, n, err)
+				return nil
 			}
 		}
 		sig, err := mkey.AggregateSignatures()
 		if err != nil {
-			panic(err)
+			mkErr = fmt.Sprintf("aggregation failed: %v", err)
+			return nil
 		}
 		qc.Signature = &lib.AggregateSignature{Signature: sig, Bitmap: mkey.Bitmap()}
 		return qc
@@ -532,6 +536,10 @@ func AttributionViols(n int, zero ...int) (viols []mc.Viol, cases int) {
 		all[i] = i
 	}
 	full := mk(1, all)
+	if full == nil {
+		return []mc.Viol{{Sig: "C14:attribution:committee-positions-inconsistent", What: fmt.Sprintf("committee of %d (zero-power members at %v): %s", n, zero, mkErr),
+			Replay: map[string]any{"attribution": n, "zero": zero}}}, 1
+	}
 	process := func(a, c *lib.QuorumCertificate) map[int]bool {
 		w.Nodes[0].ctl.Lock()
 		ds, _ := b.ProcessDSE(&bft.DoubleSignEvidence{VoteA: a, VoteB: c})
@@ -554,6 +562,11 @@ func AttributionViols(n int, zero ...int) (viols []mc.Viol, cases int) {
 			}
 			cases++
 			part := mk(2, S)
+			if part == nil {
+				viols = append(viols, mc.Viol{Sig: "C14:attribution:committee-positions-inconsistent", What: fmt.Sprintf("committee of %d (zero-power members at %v): %s", n, zero, mkErr),
+					Replay: map[string]any{"attribution": n, "zero": zero, "signers": S}})
+				continue
+			}
 			got := process(cpq(full), cpq(part))
 			want := map[int]bool{}
 			for _, s := range S {
